@@ -126,6 +126,10 @@ def gen_abscissae(rng, n):
         x0 = rng.choice((0, 0, -10, 27.0, rng.uniform(-40, 10)))
         if x0 + h * (n - 1) > 50:
             x0 = -20.0
+        if rng.random() < 0.12:
+            # Julian-day sized abscissae (how the library itself uses it)
+            h = rng.choice((1, 0.5, 0.25, 2, 5, 10))
+            x0 = float(rng.randrange(2300000, 2600000)) + rng.choice((0, .5))
         xs = [x0 + h * i for i in range(n)]
     else:
         lo = rng.uniform(-50, 20)
@@ -168,7 +172,8 @@ def gen_table(rng, for_roots=False):
         amp = rng.choice((1.0, 10.0, 0.01, 57.3))
         ys = [amp * math.sin(w * x + ph) for x in xs]
     elif kind == "exp":
-        ys = [math.exp(x / 25.0) * rng.choice((1, -1)) for x in xs]
+        ys = [math.exp((x - min(xs)) / 25.0) * rng.choice((1, -1))
+              for x in xs]
     else:
         ys = [rng.uniform(-10, 10) for _ in xs]
         k = rng.randrange(1, 5)
@@ -307,7 +312,11 @@ def case_table(mon, xs, ys, kind, qseed):
     # refusals
     span = sx[-1] - sx[0]
     for q in (sx[0] - 0.001 * span - 1e-6, sx[-1] + 0.001 * span + 1e-6,
-              sx[0] - 5.0, sx[-1] + 1e6):
+              sx[0] - 5.0, sx[-1] + 1e6,
+              # just further out than the object's node-matching tolerance
+              # (1e-10, absolute), whatever the size of the abscissae
+              sx[-1] + 2e-10 + 2 * math.ulp(sx[-1]),
+              sx[0] - 2e-10 - 2 * math.ulp(sx[0])):
         for label, fn in (("call", lambda: itp(q)),
                           ("derivative", lambda: itp.derivative(q))):
             mon.evals += 1
